@@ -31,13 +31,13 @@ var c01Descs = []vAPIDesc{
 
 // request-target prefixes per description (the symbolic tail is appended)
 var c01Prefixes = [][]string{
-	{"/api/pets", "/api/pets/", "/api/", "/"},
-	{"/", "/x/", "/x"},
+	{"/api/pets", "/api/pets/", "/api/", "/", "/api/pets/%2", "/api/pets/a%2"},
+	{"/", "/x/", "/x", "/x/%2"},
 	{"/api/v/", "/api/v"},
-	{"/a/", "/a/b/", "/a"},
+	{"/a/", "/a/b/", "/a", "/a/%2"},
 }
 
-var c01Methods = []string{"GET", "get", "POST", "Delete", "PUT", "OPTIONS"}
+var c01Methods = []string{"GET", "get", "POST", "Delete", "PUT"}
 
 // c01Unescape is the reference percent-decoder (valid encodings only).
 func c01Unescape(s string) string {
